@@ -119,11 +119,29 @@ def regenerate_printsrc(coq_dir):
     return True, changed, "ok"
 
 
+def regenerate_convertsrc(coq_dir):
+    """Gen/ConvertSrc.v from /repo/src/data/num/convert.rs (lib/trans_convert.py): into_church/scott/parigot/stumpfu."""
+    import trans_convert
+    dst = os.path.join(coq_dir, "theories", "Gen", "ConvertSrc.v")
+    base = os.path.join(coq_dir, "baseline", "ConvertSrc.v")
+    try:
+        text = trans_convert.translate(open(os.path.join(SRC, "data", "num", "convert.rs"), encoding="utf-8").read())
+    except trans_convert.TransError as e:
+        write_if_changed(dst, open(base, encoding="utf-8").read())
+        return False, False, "src/data/num/convert.rs is outside the translated idiom: %s" % e
+    except Exception as e:  # noqa
+        write_if_changed(dst, open(base, encoding="utf-8").read())
+        return False, False, "translator crashed on src/data/num/convert.rs: %r" % e
+    changed = write_if_changed(dst, text)
+    return True, changed, "ok"
+
+
 if __name__ == "__main__":
     import sys
     root = os.path.dirname(os.path.dirname(os.path.abspath(__file__)))
     print(regenerate_reducer(os.path.join(root, "coq")))
     print(regenerate_termsrc(os.path.join(root, "coq")))
     print(regenerate_printsrc(os.path.join(root, "coq")))
+    print(regenerate_convertsrc(os.path.join(root, "coq")))
     print(regenerate(sys.argv[1] if len(sys.argv) > 1 else os.path.join(root, ".cache/cargo-target/release"),
                      os.path.join(root, "coq"), os.path.join(root, ".cache")))
